@@ -45,3 +45,40 @@ def _whitelist_is_documented(repo):
 
 
 REG.side_checks.append(_whitelist_is_documented)
+
+
+def _getattr_only_in_get_member(repo):
+    """Mechanical premise of the argument: in graphtage/expressions.py the built-in getattr / __getattribute__ / __dict__ /
+    vars are used nowhere but inside get_member, and the member-access operator is implemented by get_member."""
+    import os
+    path = os.path.join(repo.root, 'graphtage', 'expressions.py') if hasattr(repo, 'root') else None
+    try:
+        tree = ast.parse(open(path).read()) if path else None
+    except Exception as e:
+        return [f'cannot re-read graphtage/expressions.py: {e}']
+    if tree is None:
+        return []
+    errs = []
+    gm = next((n for n in tree.body if isinstance(n, ast.FunctionDef) and n.name == 'get_member'), None)
+    inside = set(id(x) for x in ast.walk(gm)) if gm is not None else set()
+    for n in ast.walk(tree):
+        if isinstance(n, ast.Call) and isinstance(n.func, ast.Name) and n.func.id in ('getattr', 'vars', 'eval', 'exec') \
+                and id(n) not in inside:
+            errs.append(f'line {n.lineno}: {n.func.id}(...) outside get_member')
+        if isinstance(n, ast.Attribute) and n.attr in ('__getattribute__', '__dict__') and id(n) not in inside:
+            errs.append(f'line {n.lineno}: .{n.attr} outside get_member')
+    # Operator.MEMBER_ACCESS = ('.', 1, lambda a, b: get_member(a, b), ...)
+    found = False
+    for n in ast.walk(tree):
+        if isinstance(n, ast.Assign) and any(isinstance(t, ast.Name) and t.id == 'MEMBER_ACCESS' for t in n.targets):
+            found = True
+            lam = next((x for x in ast.walk(n.value) if isinstance(x, ast.Lambda)), None)
+            if lam is None or not (isinstance(lam.body, ast.Call) and isinstance(lam.body.func, ast.Name)
+                                   and lam.body.func.id == 'get_member'):
+                errs.append(f'line {n.lineno}: Operator.MEMBER_ACCESS is not implemented by get_member(a, b)')
+    if not found:
+        errs.append('Operator.MEMBER_ACCESS not found')
+    return errs
+
+
+REG.side_checks.append(_getattr_only_in_get_member)
